@@ -103,3 +103,28 @@ Example C07_gap_refuted :
   /\ ids_of (runC (ex_cfg None) ex_gap) = [[0; 2]; [1]].
 Proof. vm_compute. repeat split. Qed.
 Print Assumptions C07_gap_refuted.
+
+(* several passes over ONE iterator object: whatever earlier passes (completed, or abandoned after any number of
+   yields: `for molecule in it: break`) left in the buffers and the counter, a pass yields exactly what the pass of
+   a fresh object yields; iter_clears_at_start is regenerated from the first statements of __iter__ *)
+Theorem C07_pass_independent_of_history : forall c buf ctr fs, runC_after c buf ctr fs = runC c fs.
+Proof. exact runC_after_fresh. Qed.
+Print Assumptions C07_pass_independent_of_history.
+
+Theorem C07_emit_once_any_history : forall c buf ctr fs outs fl,
+  runC_after c buf ctr fs = (outs, fl, true) ->
+  Permutation (members (concat outs ++ fl)) (filter (wantedC c) fs).
+Proof. exact emit_once_any_history. Qed.
+Print Assumptions C07_emit_once_any_history.
+
+(* non-vacuity: a pass abandoned at its first yield (inside the flush) leaves three molecules buffered; without the
+   clear at the start the next pass would yield every fragment twice *)
+Example C07_history_example :
+  map (fun st => map mol_ids (concat (map snd (st_groups mol st)))) (historyC (ex_cfg None) [1%nat] ex_d10)
+    = [[[0]; [1]; [2; 3]]]
+  /\ ids_of (runC_after (ex_cfg None) (st_groups mol (last (historyC (ex_cfg None) [1%nat] ex_d10) (init mol))) 0 ex_d10)
+    = [[0]; [1]; [2; 3]]
+  /\ ids_of (run_dirty (ex_cfg None) (last (historyC (ex_cfg None) [1%nat] ex_d10) (init mol)) ex_d10)
+    = [[0; 0]; [1; 1]; [2; 3; 2; 3]].
+Proof. vm_compute. repeat split. Qed.
+Print Assumptions C07_history_example.
